@@ -585,6 +585,22 @@ def _plan_restart_dict(w: World, op, si, mt, rt) -> Plan:
     ser = _ser(w, op.get("mapper_style", "inplace_ret"))
     if use_mapper:
         trigger += "/" + op.get("mapper_style", "inplace_ret")
+    # a mapper pair that keeps the explicit id under the application's own key: the
+    # serialising side renames the pre-filled "data_id" entry to "xid", the inverse side
+    # hands it back by setting item["data_id"] (from_dict() reads the id from the entry
+    # *after* the mapper ran). Derived from fields the generator already draws.
+    rename_id = (use_mapper and op.get("deser_style") == "consume"
+                 and op.get("mapper_style", "inplace_ret") in ("inplace_ret", "inplace_none"))
+    id_key = "xid" if rename_id else "data_id"
+    if rename_id:
+        trigger += "/rename-id"
+        ser_base = ser
+
+        def ser(node, data):  # noqa: F811
+            r = ser_base(node, data)
+            if "data_id" in data:
+                data["xid"] = data.pop("data_id")
+            return r
 
     def call():
         if use_mapper:
@@ -611,9 +627,11 @@ def _plan_restart_dict(w: World, op, si, mt, rt) -> Plan:
                     fail("dict-data", f"data {it.get('data')!r} for node {w.dkey(m.data)}")
                 custom = m.did != dhash(m.data)
                 if custom:
-                    if it.get("data_id") != m.did:
+                    if it.get(id_key) != m.did:
                         fail("dict-data_id", f"custom data_id of {w.dkey(m.data)} missing")
-                elif "data_id" in it:
+                    if rename_id and "data_id" in it:
+                        fail("dict-data_id", "entry removed by the mapper is back")
+                elif "data_id" in it or id_key in it:
                     fail("dict-data_id", f"default data_id of {w.dkey(m.data)} stored")
                 if not isinstance(m.data, str):
                     enc = encode_value(m.data)
@@ -659,7 +677,16 @@ def _plan_restart_dict(w: World, op, si, mt, rt) -> Plan:
 
         pristine = flat(obj)
         try:
-            if use_mapper:
+            if rename_id:
+                deser_base = _interning_deser(w, {})
+
+                def deser(parent, data):
+                    if "xid" in data:
+                        data["data_id"] = data["xid"]
+                    return deser_base(parent, data)
+
+                loaded = w.nt.Tree.from_dict(obj, mapper=deser)
+            elif use_mapper:
                 loaded = w.nt.Tree.from_dict(obj, mapper=_interning_deser(w, {}))
             else:
                 loaded = w.nt.Tree.from_dict(obj)
@@ -667,7 +694,7 @@ def _plan_restart_dict(w: World, op, si, mt, rt) -> Plan:
             fail("from_dict-raised", f"from_dict() raised {type(e).__name__}: {e}")
         # the structure belongs to the caller (who may dump it or build from it again);
         # the simulator's mapper does not touch it, so any change is from_dict()'s
-        if flat(obj) != pristine:
+        if not rename_id and flat(obj) != pristine:  # (that mapper writes to its entry)
             fail("input-changed", "from_dict() modified the structure it was given "
                                   "(a second build from it would differ)")
         _adopt_loaded(w, si, loaded, mt, op, "C14", trigger, old_groups, plain_result=True)
